@@ -29,6 +29,7 @@ type Obligation struct {
 	Model   string
 	Note    string
 	Syntactic bool
+	Before  []*Term // for "casecover": the same case before the callee's postconditions were assumed
 }
 
 type unsupported struct{ msg string }
@@ -58,6 +59,7 @@ type Exec struct {
 	ghostLetTypes map[string]types.Type
 	inObjInv bool
 	curDefer *ssa.Defer
+	caseCovers map[string]int
 }
 
 type EntryInfo struct {
